@@ -96,3 +96,70 @@ Example C06_zero_fixing_nonvacuous :
   wf_stg zfG /\ zero_edges zfG [(1, 2)%N] = [(1, 3); (3, 4)]%N /\ Safety.forbidden (g_edges zfG) 0%N 5%N [(1, 2)%N] (1, 3)%N.
 Proof. exact zero_fixing_on_the_diamond. Qed.
 Print Assumptions C06_zero_fixing_nonvacuous.
+
+(* ---- the code's SELECTION of the slot sequences (SlotSelect.v: stDiGraph.get_longest_incompatible_sequences).  Every safe sequence is
+   attached to the arcs of the expanded condensation its arcs lie over; per member: sorted by length (stable, longest first), truncated to
+   the number of arcs between the two components -- to ONE for the arc of a component; the sequences of the members of the antichain the
+   maximum-weight-antichain oracle returns are output in order (None = the code raises on a repeated sequence).  For the dominator
+   sequences of pairwise different core arcs and an oracle answer that is an antichain of the expanded condensation, any two sequences
+   at different positions of the output are incompatible: sentence 2 of C06 for the code's selection.  Tied by E3_slot_selection (order
+   included), which also checks per instance that the oracle's answer passes MinFlowCut's premise check. *)
+From FP Require Import SlotSelect.
+From FP Require DomAlg WalkWidth.
+Theorem C06_selected_sequences_are_pairwise_incompatible :
+  forall (E : list PathEnc.edge) (s t : node) (cm : node -> N) (cn : list N) (cE : list (N * N)) (seqs : list (list PathEnc.edge)),
+  (forall u v, In u (nodes_of E) -> In v (nodes_of E) -> (cm u = cm v <-> conn E u v /\ conn E v u)) ->
+  (forall u v, In (u, v) E -> cm u <> cm v -> In (cm u, cm v) cE) ->
+  (forall e, In e E -> In (cm (fst e)) cn /\ In (cm (snd e)) cn) ->
+  NoDup E ->
+  forall cores : list PathEnc.edge, seqs = map (DomAlg.dom_sequence E s t) cores -> NoDup cores -> incl cores E ->
+  (forall e, In e E -> (exists w, Safety.st_walk E s (fst e) w) /\ (exists w, Safety.st_walk E (snd e) t w)) ->
+  forall B : list PathEnc.edge, condensation_antichain E cm cn cE B ->
+  forall out, select E cm seqs B = Some out ->
+  forall p q, (p < length out)%nat -> (q < length out)%nat -> p <> q -> Safety.incompatible E s t (nth p out []) (nth q out []).
+Proof. exact selected_sequences_pairwise_incompatible. Qed.
+Print Assumptions C06_selected_sequences_are_pairwise_incompatible.
+
+(* with the oracle's answer taken from a minimum flow that passes the extracted premise check of MinFlowCut on the s-t wrapper of the
+   expanded condensation *)
+Theorem C06_selected_sequences_are_pairwise_incompatible_checked :
+  forall (E : list PathEnc.edge) (s t : node) (cm : node -> N) (cn : list N) (cE : list (N * N)) (cores : list PathEnc.edge)
+         (VH : list node) (EH : list PathEnc.edge) (sH tH : node) (wl fl : list (PathEnc.edge * QArith_base.Q)) out,
+  (forall u v, In u (nodes_of E) -> In v (nodes_of E) -> (cm u = cm v <-> conn E u v /\ conn E v u)) ->
+  (forall u v, In (u, v) E -> cm u <> cm v -> In (cm u, cm v) cE) ->
+  (forall e, In e E -> In (cm (fst e)) cn /\ In (cm (snd e)) cn) ->
+  NoDup E -> NoDup cores -> incl cores E ->
+  (forall e, In e E -> (exists w, Safety.st_walk E s (fst e) w) /\ (exists w, Safety.st_walk E (snd e) t w)) ->
+  incl (WalkWidth.hedges E cm cn cE) EH -> MinFlowCut.mincut_premises VH EH sH tH wl fl = true ->
+  select E cm (map (DomAlg.dom_sequence E s t) cores) (snd (MinFlowCut.mincut_model VH EH sH wl fl)) = Some out ->
+  forall p q, (p < length out)%nat -> (q < length out)%nat -> p <> q -> Safety.incompatible E s t (nth p out []) (nth q out []).
+Proof. exact selected_sequences_pairwise_incompatible_checked. Qed.
+Print Assumptions C06_selected_sequences_are_pairwise_incompatible_checked.
+
+(* every selected sequence is one of the dominator sequences, hence safe *)
+Theorem C06_selected_sequences_are_safe :
+  forall (E : list PathEnc.edge) (s t : node) (cm : node -> N) (seqs : list (list PathEnc.edge)) (cores : list PathEnc.edge),
+  seqs = map (DomAlg.dom_sequence E s t) cores -> incl cores E ->
+  (forall e, In e E -> (exists w, Safety.st_walk E s (fst e) w) /\ (exists w, Safety.st_walk E (snd e) t w)) ->
+  forall (B X : list PathEnc.edge) out, select E cm seqs B = Some out -> incl cores X ->
+  forall q, In q out -> q <> [] -> Safety.safe_for_edges E s t X q.
+Proof. exact selected_sequences_are_safe. Qed.
+Print Assumptions C06_selected_sequences_are_safe.
+
+(* non-vacuity: the truncation (the arc (0,1) of the diamond is the only arc between its components and lies on both dominator sequences:
+   over its member ONE sequence is kept) and the parallel pair (the arcs (1,3) and (2,3) leave the 2-cycle towards 3 over one member of
+   multiplicity 2: both sequences are kept, longest first) *)
+Example C06_selection_truncates_to_the_multiplicity :
+  let sq := map (DomAlg.dom_sequence MinFlowCut.dmE 0%N 5%N) [(1, 2); (1, 3)]%N in
+  select_model MinFlowCut.dmE idmap6 sq [WalkWidth.hmap MinFlowCut.dmE (Reach.map_of idmap6 0%N) (0, 1)%N] = Some [nth 0 sq []] /\
+  select_model MinFlowCut.dmE idmap6 sq [WalkWidth.hmap MinFlowCut.dmE (Reach.map_of idmap6 0%N) (1, 2)%N;
+                                         WalkWidth.hmap MinFlowCut.dmE (Reach.map_of idmap6 0%N) (1, 3)%N] = Some sq.
+Proof. exact select_truncates. Qed.
+Print Assumptions C06_selection_truncates_to_the_multiplicity.
+
+Example C06_selection_keeps_parallel_arcs :
+  let sq := map (DomAlg.dom_sequence slE 0%N 4%N) [(1, 3); (2, 3)]%N in
+  select_model slE [(0, 0); (1, 1); (2, 1); (3, 2); (4, 3)]%N sq [WalkWidth.hmap slE (Reach.c_map slC) (1, 3)%N] =
+  Some [[(0, 1); (1, 2); (2, 3); (3, 4)]; [(0, 1); (1, 3); (3, 4)]]%N.
+Proof. exact select_keeps_parallel_arcs. Qed.
+Print Assumptions C06_selection_keeps_parallel_arcs.
